@@ -82,7 +82,7 @@ def highlow_key(rng, aid, bits, r, s):
 DIFFS = [100, 128, 160, 256, 2, 3]      # D = 2^(L - e)
 
 
-def upperdiff_key(rng, aid, L, dindex, odd=0):
+def upperdiff_key(rng, aid, L, dindex, odd=0, qlong=0):
   """q = next_prime(p + 2^(Ld - e)) where Ld = n.bit_length() // 2 is the documented prime size (the docstring of
   CheckSmallUpperDifferences states the misread rule in terms of n.bit_length() // 2).  odd = 0: L-bit primes, n of 2L bits;
   odd = 1: L-bit primes below 2^(L - 1/2), n of 2L - 1 bits, so Ld = L - 1."""
@@ -97,11 +97,17 @@ def upperdiff_key(rng, aid, L, dindex, odd=0):
       if hi <= (1 << (L - 1)):
         return None
       p = int(gmpy2.next_prime(rng.randrange(1 << (L - 1), hi)))
+    elif qlong:
+      # p high enough that q = p + D needs one more bit, low enough that n keeps 2L bits: the larger prime is LONGER than half of n
+      lo, hi = (1 << L) - D, int(gmpy2.isqrt(1 << (2 * L))) - D // 2 - (1 << (L // 2))
+      if hi <= lo:
+        return None
+      p = int(gmpy2.next_prime(rng.randrange(lo, hi)))
     else:
       p = art.rand_prime(rng, L)
     q = int(gmpy2.next_prime(p + D))
     n = p * q
-    if q.bit_length() != L or n.bit_length() != 2 * L - odd:
+    if (qlong and q.bit_length() != L + 1) or (not qlong and q.bit_length() != L) or n.bit_length() != 2 * L - odd:
       continue
     return _mk(aid, n, 'upperdiff', {'family': 'upperdiff', 'dindex': dindex, 'L': n.bit_length() // 2, 'nbits': n.bit_length()}, p=p, q=q)
   return None
